@@ -23,6 +23,11 @@ from . import names as N
 
 COMMENTS = (
     "# a comment",
+    "# form\x0cfeed Alias Xff Yff",
+    "# ls\u2028Alias Als Bls",
+    "# nel\x85 Define qnel 1.0",
+    "# vt\x0b; fs\x1c gs\x1d rs\x1e Decay Zq",
+    "# caf\u00e9 \u03c0+ \u2192 \u03bc+ \u03bd",
     "#",
     "# Decay X ; End Enddecay",
     "#; 1.0 a b PHSP;",
@@ -200,7 +205,7 @@ def name_pool(draw, min_size=4, max_size=10, extra_models=()):
 
 
 @st.composite
-def params_list(draw, defined=(), max_size=12, undefined_words=True):
+def params_list(draw, defined=(), max_size=12, undefined_words=True, floaty_words=True):
     n = draw(st.sampled_from((0, 0, 1, 1, 2, 3, 4, 6, 8, max_size)))
     n = min(n, max_size)
     out = []
@@ -211,6 +216,9 @@ def params_list(draw, defined=(), max_size=12, undefined_words=True):
         elif c <= 6 and defined:
             nm = draw(st.sampled_from(list(defined)))
             out.append({"t": "word", "v": ("-" + nm) if draw(st.integers(0, 3)) == 0 else nm})
+        elif undefined_words and floaty_words and draw(st.sampled_from((True, False, False, False))):
+            # words that Python's float() would accept are still words of this language (LABEL, not SIGNED_NUMBER)
+            out.append({"t": "word", "v": draw(st.sampled_from(("nan", "inf", "-inf", "Infinity", "+inf", "NaN", "-Infinity", "infinity", "e5", "_1", "x10")))})
         elif undefined_words:
             w = draw(N.synthetic_label(max_size=6, avoid=frozenset(defined)))
             if draw(st.integers(0, 5)) == 0 and N.safe_label("-" + w):
